@@ -383,6 +383,8 @@ var profiles = []struct {
 	{"natural", []int{0, 1, 2, 3, 4, 5}, []int{20, 10, 5, 3, 1, 1}},
 	{"17+17+6", []int{2, 4, 0}, []int{17, 17, 6}},
 	{"34+6", []int{3, 0}, []int{34, 6}},
+	// ids whose hash shares its first byte (and more) with the local node's: buckets 248 and below
+	{"deep", []int{0, 8, 9, 10, 12}, []int{18, 17, 3, 1, 1}},
 }
 
 // op mixes: weights for add, stuff, delete, deleteReplace, bump
